@@ -109,8 +109,9 @@ def order_like(offers, frames):
     return out + rest
 
 
-def second_pid_scenario(ctx, trace, run_id):
-    """A connection that announces a second peer id for a torrent it has not stopped is refused with an error."""
+def second_pid_scenario(ctx, trace, run_id, second_event="started"):
+    """A connection that announces a second peer id for a torrent it has not stopped is refused with an error
+    (whatever the event of that second announce)."""
     port = free_port(socket.SOCK_STREAM)
     t = Tracker(ctx, "ws", ws_config(port, 2, 2, addr="[::]"), "c17_secondpid")
     cls = []
@@ -122,12 +123,12 @@ def second_pid_scenario(ctx, trace, run_id):
         a = WsClient("A", "127.0.0.2", ("127.0.0.1", port))
         b = WsClient("B", "127.0.0.3", ("127.0.0.1", port))
         cls = [a, b]
-        for cl, pid in ((a, 1), (b, 2), (a, 3)):
-            cl.send_text(announce_msg(1, pid, "started", 1, [], []))
+        for cl, pid, evn in ((a, 1, "started"), (b, 2, "started"), (a, 3, second_event)):
+            cl.send_text(announce_msg(1, pid, evn, 1, [], []))
             got = settle([c for c in cls if not c.closed], 0.3)
             frames = [abstract_frame(m, n) for n, m in got]
             mine = [f for f in frames if f["to"][0] == cl.name]
-            trace.append({"ev": "announce", "c": [cl.name, 0], "fam": 4, "h": 1, "pid": pid, "event": "started",
+            trace.append({"ev": "announce", "c": [cl.name, 0], "fam": 4, "h": 1, "pid": pid, "event": evn,
                           "left": 1, "offers": [], "answer": [], "now": 0,
                           "refused": cl.closed and len(mine) == 1 and mine[0]["kind"] == "error",
                           "conn_closed_by_tracker": cl.closed,
@@ -266,6 +267,7 @@ def run(ctx):
             total[x] += st[x]
     empty_scrape_scenario(ctx, trace, 900)
     second_pid_scenario(ctx, trace, 901)
+    second_pid_scenario(ctx, trace, 903, second_event="stopped")
     idle_close_scenario(ctx, trace, 902)
     tp = ctx.path("ws_server.ndjson")
     with open(tp, "w") as f:
